@@ -356,6 +356,16 @@ func indexSnapshot(cfg idxConfig, rc *cache.RowCache) string {
 	return strings.Join(parts, " ; ")
 }
 
+// c08Reordered: the same value; a set or a map mostly with its elements written in another order
+func c08Reordered(r *Run, v *Value) *Value {
+	out := cloneValue(v)
+	if r.Rng.Intn(3) != 0 {
+		r.Rng.Shuffle(len(out.S), func(i, j int) { out.S[i], out.S[j] = out.S[j], out.S[i] })
+		r.Rng.Shuffle(len(out.M), func(i, j int) { out.M[i], out.M[j] = out.M[j], out.M[i] })
+	}
+	return out
+}
+
 func runC08(r *Run) {
 	r.Rule = "tables of 0-6 rows over table T (string, integer, optional string/integer, map, set columns) under two random index configurations, half of the tables reached through updates in which a row takes over another row's values before that one moves on; lists of 0-4 well-typed conditions over all columns incl. _uuid, values mostly taken from existing rows (sub-maps, permuted/extended sets); non-trivial = condition list that selects a proper non-empty subset of the rows; distinct by (rows, conditions)"
 	n := 400
@@ -432,7 +442,7 @@ func runC08(r *Run) {
 				conds = nil
 				for _, ck := range sp.Cols {
 					if ck.Key == nil {
-						conds = append(conds, CondJ{Col: ck.Col, Fn: "==", Val: cloneValue(src[ck.Col])})
+						conds = append(conds, CondJ{Col: ck.Col, Fn: "==", Val: c08Reordered(r, src[ck.Col])})
 					}
 				}
 				if r.Rng.Intn(2) == 0 {
@@ -442,7 +452,7 @@ func runC08(r *Run) {
 					src2 := table[order[r.Rng.Intn(len(order))]]
 					for _, ck := range sp2.Cols {
 						if ck.Key == nil {
-							conds = append(conds, CondJ{Col: ck.Col, Fn: "==", Val: cloneValue(src2[ck.Col])})
+							conds = append(conds, CondJ{Col: ck.Col, Fn: "==", Val: c08Reordered(r, src2[ck.Col])})
 						}
 					}
 				}
